@@ -142,15 +142,6 @@ func setupC18() error {
 		c18Algs = append(c18Algs, a)
 	}
 	sort.Strings(c18Algs)
-	base := os.Getenv("BKSIM_SCRATCH")
-	if base == "" {
-		base = os.TempDir()
-	}
-	d, err := os.MkdirTemp(base, "bksim-c18-")
-	if err != nil {
-		return err
-	}
-	c18Scratch = d
 	return nil
 }
 
@@ -205,9 +196,26 @@ func writeJWKS(path string, keys []map[string]any) []byte {
 	return b
 }
 
+// c18ScratchDir creates the per-process scratch directory on first use (under the driver's scratch
+// directory, which is removed when the check ends).
+func c18ScratchDir() string {
+	if c18Scratch == "" {
+		base := os.Getenv("BKSIM_SCRATCH")
+		if base == "" {
+			base = os.TempDir()
+		}
+		d, err := os.MkdirTemp(base, "bksim-c18-")
+		if err != nil {
+			panic("bksim: cannot create scratch dir: " + err.Error())
+		}
+		c18Scratch = d
+	}
+	return c18Scratch
+}
+
 func runC18(c *engine.Ctx) {
 	p := c.Plan
-	path := filepath.Join(c18Scratch, "jwks.json")
+	path := filepath.Join(c18ScratchDir(), "jwks.json")
 	var fp []any
 
 	// ---- (a) one table cell
